@@ -64,6 +64,10 @@ def _special(seed):
     Xr[0:2] *= 3.0
     Xr[6:] = Xr[0:2]
     out.append(("copyrow8x6", Xr.tolist()))
+    # the same generic data in very small / large units (exact powers of two)
+    g = np.array(fam.generic_list(5, 4, seed, 1)[0], float)
+    out.append(("G5x4-unit2^-20", (g * 2.0 ** -20).tolist()))
+    out.append(("G5x4-unit2^14", (g * 2.0 ** 14).tolist()))
     return out
 
 
@@ -485,7 +489,17 @@ def check(case):
                 if exc0 is not None:
                     r.fail("crash:%s" % type(exc0).__name__, "first fit of the used selector: %r" % exc0)
                     return r
+                sel.query_all(s, Xo)
                 # the caller refills the same array objects in place and passes them again
+                if bool(np.all(X == np.round(X))) and np.abs(X).max() < 1e6:
+                    # integer-valued data: the caller's buffer is an INTEGER array (validation has to convert it)
+                    Xi = np.round(Xo).astype(np.int64)
+                    s2 = sel.make(kind, d, **p)
+                    _, exc1 = sel.fit_quiet(s2, Xi, yo)
+                    if exc1 is None:
+                        s = s2
+                        Xi[...] = X.astype(np.int64)
+                        Xo = Xi
                 Xo[...] = X
                 X = Xo
                 if yo is not None:
